@@ -19,7 +19,21 @@ Readings fixed here (each is the reading under which the repaired code is right)
   the note's full end;
 * pitches outside 0..127 without a pitch margin, empty arrays, negative durations and unknown time units
   are rejected (any exception);
-* the decoder: a note is a maximal horizontal run of one non-zero value in one row.
+* the decoder: a note is a maximal horizontal run of one non-zero value in one row; its times are
+  start/time_div and length/time_div computed in binary64 and stored in float32 columns (exactly that value);
+* arguments as they are passed: an omitted keyword has its documented default; `time_div` is converted with
+  int() (truncation toward zero); `time_margin` may be any number - the leading margin is
+  int(time_margin*time_div) frames, the trailing one time_margin*time_div with the column count rounded up;
+  `end_time` may be a one-element array / list (fix C13-2); frames that would fall outside [0, columns)
+  (only possible with a negative time_div / time_margin) cannot be shown, such a call is rejected;
+  no verdict of the oracle (the model comparison still applies) for a `time_div` given as an array with a
+  dimension and for an `end_time` sequence that does not have exactly one element;
+* inputs other than a structured array go through `ensure_notearray`: Part / PartGroup / Score / list of
+  Parts give a score note array (beat, quarter, div columns; no velocity - every note counts 1; no channel),
+  PerformedPart / Performance a performance note array (sec, tick; velocity; channel - drums are dropped when
+  `remove_drums`); the rows of that note array (another property's subject) are taken from the
+  implementation, "input order" is their order; anything else (unstructured array, list of PerformedParts,
+  empty list, other objects) is rejected.
 """
 import math
 import warnings
@@ -27,42 +41,71 @@ from fractions import Fraction
 
 import numpy as np
 
+import gen_score as GS
 import wire as W
 from core import Eval
 
 PROPERTY = "C13"
 DRIVER = "drv_c13"
-PROPS = ["PartituraModel.Props.C13"]
+PROPS = ["PartituraModel.Props.C13", "PartituraModel.Props.C13Args"]
 TRUSTED = [
     "scipy.sparse.csc_matrix((data,(row,col)),shape,dtype=int): places each triplet, rejects out-of-range indices; [21:109,:] slicing; toarray()",
     "np.round = round half to even on binary64; np.argsort = some permutation that sorts (ties in any order: order_indep shows no output depends on it)",
-    "binary64 evaluation of time_div*(onset - t0), time_div*duration, time_div*(end_time - t0): exact on the generated domain "
-    "(float32 columns, small integer time_div); every case is checked for exactness before it is compared, inexact ones are skipped and counted",
+    "binary64 evaluation of time_div*(onset - t0), time_div*duration, time_margin*time_div, time_div*(end_time - t0) and of the sums in the "
+    "column count: exact on the generated domain (float32 columns, small time_div, dyadic margins); every case is checked for exactness "
+    "before it is compared, inexact ones are skipped and counted",
     "np.isclose(colsum, 0) modelled as colsum = 0 (integer cell values); float division of the normalised pitch-class roll compared to the exact rational with rtol 1e-9",
-    "TIME_UNITS of utils/globals.py is copied into the model by hand (5 strings); the correspondence exercises every member and non-members",
-    "float32 storage of decoded onsets/durations (on/time_div) compared to the exact rational with rtol 1e-6",
+    "the rows of the note array that ensure_notearray builds from a Part / Score / PerformedPart / Performance (note_array_from_part(_list), "
+    "PerformedPart.note_array: other properties' subject) are taken from the implementation; the dispatch itself (which kinds are accepted, "
+    "which columns the array then has) is modelled from the generated layout table and stated in ensure_dispatch",
+    "IEEE-754: Python float division = correctly rounded binary64, storage in an f4 column = round to nearest even binary32 "
+    "(Model roundBin; compared exactly, value by value); int32 storage of pitch / velocity (|value| < 2^31)",
+    "harness/translate_c13.py reads the constants from the live source (signatures, ast literals, two finite function tables by calling the "
+    "functions on their whole domain); tables_spec / tables_extracted pin every generated value",
 ]
 PARTIAL = [
     "cell_iff / cell_binary / idx_designate / decode_encode assume MIDI velocities > 0 (a velocity-0 note yields an explicit zero cell; cell_value covers that case)",
-    "decode_encode: stated for the options under which times can be read back (RoundTripOpts: no onset mode / separation / margins / end_time, remove_silence=False, not binary) and onsets >= 0 on the grid; the decoder itself (decode_spec) is proved for every integer matrix",
-    "float effects (binary64 products before np.round, float32 storage of decoded times, float division of the normalised pitch-class roll) are outside the exact-rational model: checked per case / compared with tolerance, not proved",
+    "decode_encode: stated for the options under which times can be read back (RoundTripOpts: no onset mode / separation / margins / end_time, remove_silence=False, not binary) and onsets >= 0 on the grid, over the exact rational times; the float32 columns are covered by stored_times (error bound) and stored_exact (exactness on power-of-two grids), not by a round trip through re-rasterisation",
+    "float effects inside the rasteriser (binary64 products before np.round) and the float division of the normalised pitch-class roll are outside the exact-rational model: checked per case / compared with tolerance, not proved",
     "scipy sparse assembly, slicing and toarray are trusted primitives (Roll.cell is their assumed meaning); compared cell by cell",
+    "argument kinds outside the model: non-numeric strings / booleans for time_div, end_time, time_margin; non-integer pitch_margin; float-valued rolls for the decoder",
 ]
 RULE = ("random structured note arrays (score units beat/quarter/div, performance units sec/tick, f4/i4 columns in shuffled dtype order, "
         "with/without velocity and channel columns, rows in random order, pitch pools forcing collisions, zero durations, drum channel 9, "
-        "negative onsets, half-frame ties, rare invalid inputs) x sampled option sets (time_unit, time_div in {1,2,3,8,12,16,auto}, onset_only, "
-        "note_separation, pitch_margin in {-1,0,2}, time_margin in {0,1,2}, piano_range, remove_drums, remove_silence, end_time, binary, "
-        "return_idxs; pitch-class roll with normalize/binary); random integer rolls 128xn / 88xn (dense and sparse) and encode->decode round "
-        "trips for the inverse. distinct = distinct request text; non-trivial = at least one request answered with a roll/note list (not err)")
-LEVEL_TEXT = ("Lean 4 theorems over an executable exact-rational model of _make_pianoroll / compute_pianoroll / "
-              "compute_pitch_class_pianoroll / pianoroll_to_notearray (all note lists, all option values, by induction and "
-              "permutation invariance), tied to the code by a differential run that compares shape, every non-zero cell and "
-              "every index row exactly, plus an independent Fraction rasteriser as oracle on the implementation's outputs.")
+        "negative onsets, half-frame ties, rare invalid inputs) and real Part / PartGroup / Score / list-of-Parts / PerformedPart / Performance "
+        "objects (plus rejected kinds: unstructured array, list of PerformedParts, empty list, str, None) x sampled keyword sets in which every "
+        "keyword is given or omitted (time_unit, time_div in {1,2,3,8,12,16,auto, floats, 0, negative, 0-d / 1-d arrays}, onset_only, "
+        "note_separation, pitch_margin in {-1,0,2}, time_margin in {0,1,2, 1/2, 3/2, 1/4, negative}, piano_range, remove_drums, remove_silence, "
+        "end_time as number / one-element array / list / longer or empty array, binary, return_idxs; pitch-class roll with its own keywords given or "
+        "omitted); random integer rolls 128xn / 88xn / other heights (dense and sparse, negative values, empty, single column, noisy rows, "
+        "time_div omitted / fractional / zero / negative) and encode->decode round trips for the inverse. "
+        "distinct = distinct request text; non-trivial = at least one request answered with a roll/note list (not err)")
+LEVEL_TEXT = ("Lean 4 theorems over an executable exact-rational model of ensure_notearray's dispatch, the keyword handling (defaults, int(), "
+              ".item()), _make_pianoroll / compute_pianoroll / compute_pitch_class_pianoroll / pianoroll_to_notearray incl. its float32 "
+              "columns (all note lists, all option values, by induction and permutation invariance), stated over constant tables regenerated "
+              "from the source, and tied to the code by a differential run that compares shape, every non-zero cell, every index row and "
+              "every decoded value exactly, plus an independent Fraction rasteriser as oracle on the implementation's outputs.")
 
 SCORE_UNITS = ["beat", "quarter", "div"]
 PERF_UNITS = ["sec", "tick"]
 INT_UNITS = ("div", "tick")
 TIME_UNITS = ["beat", "quarter", "sec", "div", "tick"]
+# documented defaults (hard-coded here on purpose: the oracle does not read the generated tables)
+PR_KEYS = ["tu", "td", "oo", "ns", "pm", "tm", "ri", "pr", "rd", "rs", "et", "bi"]
+PR_DEFAULTS = {"tu": "auto", "td": "auto", "oo": False, "ns": False, "pm": -1, "tm": 0, "ri": False, "pr": False,
+               "rd": True, "rs": True, "et": None, "bi": False}
+PR_KWNAME = {"tu": "time_unit", "td": "time_div", "oo": "onset_only", "ns": "note_separation", "pm": "pitch_margin",
+             "tm": "time_margin", "ri": "return_idxs", "pr": "piano_range", "rd": "remove_drums", "rs": "remove_silence",
+             "et": "end_time", "bi": "binary"}
+PC_KEYS = ["norm", "tu", "td", "oo", "ns", "tm", "ri", "rs", "et", "bin"]
+PC_DEFAULTS = {"norm": True, "tu": "auto", "td": "auto", "oo": False, "ns": False, "tm": 0, "ri": False, "rs": True,
+               "et": None, "bin": False}
+PC_KWNAME = dict(PR_KWNAME, norm="normalize", bin="binary")
+SCORE_KINDS = ("part", "partgroup", "score", "partlist")
+PERF_KINDS = ("performedpart", "performance")
+BAD_KINDS = ("performedpartlist", "emptylist", "plainarray", "other", "none")
+MAX_CELLS = 1500   # rolls with more non-zero cells / more columns (pitch-class requests) are checked by the oracle only
+MAX_COLS = 400
 
 
 # --------------------------------------------------------------------------- generation
@@ -148,11 +191,44 @@ def gen_array(rng, tier):
         c = dict(rng.choice(rows))
         c = {"p": c["p"], "t": [list(x) for x in c["t"]], "v": (rng.randint(1, 127) if has_vel else None), "c": c["c"]}
         rows.insert(rng.randint(0, len(rows)), c)
-    return {"units": units, "has_vel": has_vel, "has_chan": has_chan, "rows": rows}
+    return {"src": "array", "units": units, "has_vel": has_vel, "has_chan": has_chan, "rows": rows}
 
 
-def gen_opts(rng, arr):
-    units = arr["units"]
+def gen_object(rng, tier):
+    """a real score-like / performance-like object (or something ensure_notearray must reject)"""
+    m = rng.random()
+    if m < 0.45:
+        kind = rng.choice(SCORE_KINDS)
+        nparts = 1 if kind == "part" else rng.choice([1, 1, 2])
+        kw = dict(n_measures=rng.randint(1, 2), voices=rng.randint(1, 2), ts_changes=False, divs=rng.choice([1, 2, 4]))
+        parts = [GS.random_part_desc(rng, pid="P%d" % i, **kw) for i in range(nparts)]
+        return {"src": kind, "parts": parts}
+    if m < 0.9:
+        kind = rng.choice(PERF_KINDS + (("performedpartlist",) if rng.random() < 0.15 else ()))
+        grid = rng.choice([2, 4, 8, 16])
+        drum_p = rng.choice([0.0, 0.3, 0.5, 1.0 if rng.random() < 0.1 else 0.2])
+        pool = [rng.randint(21, 108) for _ in range(rng.randint(1, 3))] if rng.random() < 0.5 else list(range(0, 128))
+        notes = []
+        for i in range(rng.choice([1, 2, 3, 4, 6, 9])):
+            on = Fraction(rng.randint(0, 6 * grid), grid)
+            ln = Fraction(rng.randint(0, 2 * grid), grid)
+            n = {"p": rng.choice(pool), "on": float(on), "off": float(on + ln), "v": rng.randint(1, 127), "tr": rng.randint(0, 1)}
+            if rng.random() < 0.8:
+                n["c"] = 9 if rng.random() < drum_p else rng.randint(0, 15)
+            notes.append(n)
+        rng.shuffle(notes)
+        return {"src": kind, "pnotes": notes, "ppq": rng.choice([2, 4, 8])}
+    return {"src": rng.choice(["emptylist", "plainarray", "other", "none"])}
+
+
+TD_POOL = [1, 2, 8, 16, "auto", "auto", 3, 12]
+TD_ODD = [0, -1, -2, 2.7, 8.0, 3.5, -1.5, 0.5, {"a0": 4}, {"a0": 2.5}, {"arr": [4]}, {"arr": [2, 4]}]
+TM_POOL = [0, 0, 1, 2]
+TM_ODD = [0.5, 1.5, 0.25, 0.75, 2.5, -0.5, -1, 1.0, 0.125]
+
+
+def gen_opts(rng, src):
+    units = src.get("units") or (SCORE_UNITS if src["src"] in SCORE_KINDS else PERF_UNITS if src["src"] in PERF_KINDS else [])
     m = rng.random()
     if m < 0.45 or not units:
         tu = "auto"
@@ -162,16 +238,23 @@ def gen_opts(rng, arr):
         tu = rng.choice(TIME_UNITS)
     else:
         tu = rng.choice(["foo", "seconds", ""])
-    td = rng.choice([1, 2, 8, 16, "auto", "auto", 3, 12])
+    td = rng.choice(TD_POOL) if rng.random() < 0.85 else rng.choice(TD_ODD)
+    tm = rng.choice(TM_POOL) if rng.random() < 0.8 else rng.choice(TM_ODD)
     o = {
         "tu": tu, "td": td,
         "oo": rng.random() < 0.25, "ns": rng.random() < 0.4,
-        "pm": rng.choice([-1, -1, 0, 2]), "tm": rng.choice([0, 0, 1, 2]),
+        "pm": rng.choice([-1, -1, 0, 2]), "tm": tm,
         "pr": rng.random() < 0.3, "rd": rng.random() < 0.85, "rs": rng.random() < 0.5,
         "et": None, "bi": rng.random() < 0.3, "ri": rng.random() < 0.6,
     }
-    if rng.random() < 0.3 and arr["rows"] and units:
-        ends = [r["t"][k][0] + max(r["t"][k][1], 0) for r in arr["rows"] for k in range(len(units))]
+    ends = None
+    if src["src"] == "array" and src["rows"] and units:
+        ends = [r["t"][k][0] + max(r["t"][k][1], 0) for r in src["rows"] for k in range(len(units))]
+    elif src.get("pnotes"):
+        ends = [n["off"] for n in src["pnotes"]]
+    elif src.get("parts"):
+        ends = [max([n["t"] + n["dur"] for n in p["notes"]] + [0]) / p["divs"] * rng.choice([1, 1, 2, p["divs"]]) for p in src["parts"]]
+    if rng.random() < 0.3 and ends:
         base = max(ends)
         d = rng.choice([0, 0.5, 1, 2, 3, 5, -0.25, -2])
         et = base + d
@@ -179,33 +262,71 @@ def gen_opts(rng, arr):
             et = int(math.ceil(et))
         else:
             et = float(et)
+        w = rng.random()
+        if w < 0.2:
+            et = {"arr": [et]}
+        elif w < 0.27:
+            et = {"list": [et]}
+        elif w < 0.32:
+            et = {"arr": [et, et + 1]}
+        elif w < 0.35:
+            et = {"arr": []}
         o["et"] = et
+    # keywords that are not passed at all (their defaults apply)
+    w = rng.random()
+    if w < 0.25:
+        o["omit"] = sorted(rng.sample(PR_KEYS, rng.randint(1, 4)))
+    elif w < 0.33:
+        o["omit"] = sorted(rng.sample(PR_KEYS, rng.randint(8, 12)))
     if rng.random() < 0.3:
-        o["pc"] = {"norm": rng.random() < 0.6, "bin": rng.random() < 0.4}
+        pc = {"norm": rng.random() < 0.6, "bin": rng.random() < 0.4}
+        w = rng.random()
+        if w < 0.3:
+            pc["omit"] = sorted(rng.sample(PC_KEYS, rng.randint(1, 4)))
+        elif w < 0.4:
+            pc["omit"] = sorted(rng.sample(PC_KEYS, rng.randint(7, 10)))
+        o["pc"] = pc
     return o
 
 
 def gen_roll(rng, tier):
-    rows = rng.choice([128, 128, 88, 88, 88, 12, 100]) if rng.random() < 0.9 else rng.choice([0, 1, 129])
-    n = rng.choice([0, 1, 2, 3, 5, 8, 12, 20])
+    rows = rng.choice([128, 128, 88, 88, 88, 12, 100]) if rng.random() < 0.9 else rng.choice([0, 1, 129, 87, 89, 127])
+    n = rng.choice([0, 1, 1, 2, 3, 5, 8, 12, 20])
     cells = {}
+    signed = rng.random() < 0.3
+    def val():
+        v = rng.choice([1, 1, 64, 64, 100, rng.randint(1, 127)])
+        if signed and rng.random() < 0.4:
+            v = rng.choice([-1, -64, -v, 128, 300, -(2 ** 20)])
+        return v
     if rows > 0:
         prow = [rng.randrange(rows) for _ in range(rng.randint(1, 4))]
-        for _ in range(rng.randint(0, 8)):
-            if n == 0:
-                break
-            p = rng.choice(prow) if rng.random() < 0.7 else rng.randrange(rows)
-            on = rng.randrange(n)
-            ln = rng.randint(1, 5)
-            v = rng.choice([1, 1, 64, 64, 100, rng.randint(1, 127)])
-            for j in range(on, min(n, on + ln)):
-                cells[(p, j)] = v
-        for _ in range(rng.randint(0, 3)):
-            if n:
-                cells[(rng.randrange(rows), rng.randrange(n))] = rng.randint(1, 127)
+        mode = rng.random()
+        if mode < 0.2 and n:
+            # noisy rows: every cell of a few rows drawn from a small alphabet (adjacent equal / different / zero values)
+            alpha = [0, 0, 1, 1, 2] + ([-1, -2] if signed else [5])
+            for p in prow[:3]:
+                for j in range(n):
+                    v = rng.choice(alpha)
+                    if v:
+                        cells[(p, j)] = v
+        else:
+            for _ in range(rng.randint(0, 8)):
+                if n == 0:
+                    break
+                p = rng.choice(prow) if rng.random() < 0.7 else rng.randrange(rows)
+                on = rng.randrange(n)
+                ln = rng.randint(1, 5)
+                v = val()
+                for j in range(on, min(n, on + ln)):
+                    cells[(p, j)] = v
+            for _ in range(rng.randint(0, 3)):
+                if n:
+                    cells[(rng.randrange(rows), rng.randrange(n))] = val()
+    td = rng.choice([1, 2, 8, 12, 16, 3]) if rng.random() < 0.8 else rng.choice([None, None, 0, 0.5, 2.5, -2, 0.1, 7, 1000, 0.0])
+    unit = rng.choice(["sec", "beat", "quarter"]) if td is not None or rng.random() < 0.5 else None
     return {"k": "dec", "rows": rows, "n": n, "cells": sorted([p, j, v] for (p, j), v in cells.items()),
-            "td": rng.choice([1, 2, 8, 12, 16, 3]), "unit": rng.choice(["sec", "beat", "quarter"]),
-            "sparse": rng.random() < 0.3}
+            "td": td, "unit": unit, "sparse": rng.random() < 0.3}
 
 
 def gen_roundtrip(rng, tier):
@@ -226,12 +347,18 @@ def gen_roundtrip(rng, tier):
 
 
 def cases(rng, tier):
-    n_arr, n_opt, n_dec, n_rt = {"quick": (300, 12, 250, 120), "thorough": (3000, 36, 4000, 1500)}.get(tier, (4000, 24, 3000, 1500))
+    n_arr, n_opt, n_obj, n_oopt, n_dec, n_rt = {
+        "quick": (260, 12, 70, 8, 300, 100), "thorough": (2600, 36, 700, 16, 4500, 1500)}.get(tier, (3500, 24, 800, 12, 3500, 1500))
     for _ in range(n_arr):
         arr = gen_array(rng, tier)
         arr["k"] = "pr"
         arr["opts"] = [gen_opts(rng, arr) for _ in range(n_opt)]
         yield arr
+    for _ in range(n_obj):
+        obj = gen_object(rng, tier)
+        obj["k"] = "pr"
+        obj["opts"] = [gen_opts(rng, obj) for _ in range(n_oopt if obj["src"] not in BAD_KINDS else 2)]
+        yield obj
     for _ in range(n_dec):
         yield gen_roll(rng, tier)
     for _ in range(n_rt):
@@ -263,22 +390,176 @@ def build_array(d):
     return np.array(recs, dtype=dt)
 
 
+def build_input(d):
+    """the `note_info` argument"""
+    import partitura.performance as P
+    import partitura.score as S
+
+    src = d.get("src", "array")
+    if src == "array":
+        return build_array(d)
+    if src in SCORE_KINDS:
+        parts = [GS.build_part(p) for p in d["parts"]]
+        if src == "part":
+            return parts[0]
+        if src == "partlist":
+            return parts
+        if src == "score":
+            return S.Score(parts, id="s")
+        g = S.PartGroup(group_name="g")
+        g.children = parts
+        return g
+    if src in PERF_KINDS or src == "performedpartlist":
+        notes = []
+        for i, n in enumerate(d["pnotes"]):
+            x = dict(id="n%d" % i, midi_pitch=n["p"], note_on=n["on"], note_off=n["off"], velocity=n["v"], track=n["tr"])
+            if "c" in n:
+                x["channel"] = n["c"]
+            notes.append(x)
+        pp = P.PerformedPart(notes, id="PP0", ppq=d.get("ppq", 4))
+        if src == "performedpart":
+            return pp
+        if src == "performance":
+            return P.Performance(performedparts=[pp], id="perf")
+        return [pp]
+    if src == "emptylist":
+        return []
+    if src == "plainarray":
+        return np.zeros((3, 4))
+    if src == "other":
+        return "notes"
+    return None
+
+
+def layout_of(d):
+    """(units, has_vel, has_chan) of the note array the input stands for; None = must be rejected"""
+    src = d.get("src", "array")
+    if src == "array":
+        return list(d["units"]), d["has_vel"], d["has_chan"]
+    if src in SCORE_KINDS:
+        return list(SCORE_UNITS), False, False
+    if src in PERF_KINDS:
+        return list(PERF_UNITS), True, True
+    return None
+
+
+def td_py(td):
+    if isinstance(td, dict):
+        return np.array(td["arr"]) if "arr" in td else np.array(td["a0"])
+    return td
+
+
+def td_tok(td):
+    if td == "auto":
+        return "auto"
+    if isinstance(td, dict):
+        return "arr" if "arr" in td else "n " + W.q(td["a0"])
+    return "n " + W.q(td)
+
+
+def et_py(et):
+    if isinstance(et, dict):
+        return np.array(et["arr"], dtype=float) if "arr" in et else list(et["list"])
+    return et
+
+
+def et_tok(et):
+    if et is None:
+        return "-"
+    if isinstance(et, dict):
+        return "a " + W.lst(W.q, et["arr"] if "arr" in et else et["list"])
+    return "s " + W.q(et)
+
+
+def et_scalar(et):
+    """the number an `end_time` argument stands for; 'skip' when the oracle gives no verdict"""
+    if isinstance(et, dict):
+        xs = et["arr"] if "arr" in et else et["list"]
+        return xs[0] if len(xs) == 1 else "skip"
+    return et
+
+
+def _tok(k, v):
+    if k == "tu":
+        return W.s(v)
+    if k == "td":
+        return td_tok(v)
+    if k == "pm":
+        return W.i(v)
+    if k == "tm":
+        return W.q(v)
+    if k == "et":
+        return et_tok(v)
+    return W.b(v)
+
+
 def req_args(o):
-    return " ".join([
-        W.s(o["tu"]), "-" if o["td"] == "auto" else W.i(o["td"]), W.b(o["rd"]), W.b(o["oo"]), W.b(o["ns"]),
-        W.i(o["pm"]), W.i(o["tm"]), W.b(o["pr"]), W.b(o["rs"]), W.opt(W.q, o["et"]), W.b(o["bi"]), W.b(o["ri"]),
-    ])
+    omit = o.get("omit", ())
+    return " ".join("-" if k in omit else _tok(k, o[k]) for k in PR_KEYS)
 
 
-def req_array(d, arr):
-    toks = [W.lst(W.s, d["units"]), W.b(d["has_vel"]), W.b(d["has_chan"]), str(len(arr))]
-    for rec in arr:
+def pc_values(o):
+    """the pitch-class call's own keyword values (shared ones are those of the option set)"""
+    pc = o["pc"]
+    return {"norm": pc["norm"], "tu": o["tu"], "td": o["td"], "oo": o["oo"], "ns": o["ns"], "tm": o["tm"], "ri": o["ri"],
+            "rs": o["rs"], "et": o["et"], "bin": pc["bin"]}
+
+
+def req_pc_args(o):
+    vals = pc_values(o)
+    omit = o["pc"].get("omit", ())
+    return " ".join("-" if k in omit else _tok({"norm": "b", "bin": "b"}.get(k, k), vals[k]) for k in PC_KEYS)
+
+
+def effective(o):
+    """the option values after defaults"""
+    omit = o.get("omit", ())
+    return {k: (PR_DEFAULTS[k] if k in omit else o[k]) for k in PR_KEYS}
+
+
+def pc_effective(o):
+    vals = pc_values(o)
+    omit = o["pc"].get("omit", ())
+    return {k: (PC_DEFAULTS[k] if k in omit else vals[k]) for k in PC_KEYS}
+
+
+def kwargs_of(o):
+    omit = o.get("omit", ())
+    kw = {}
+    for k in PR_KEYS:
+        if k in omit:
+            continue
+        v = o[k]
+        kw[PR_KWNAME[k]] = td_py(v) if k == "td" else et_py(v) if k == "et" else v
+    return kw
+
+
+def pc_kwargs_of(o):
+    vals = pc_values(o)
+    omit = o["pc"].get("omit", ())
+    kw = {}
+    for k in PC_KEYS:
+        if k in omit:
+            continue
+        v = vals[k]
+        kw[PC_KWNAME[k]] = td_py(v) if k == "td" else et_py(v) if k == "et" else v
+    return kw
+
+
+def req_array(lay, arr):
+    """the note array as the model sees it: layout + rows (`arr` = the structured array, None = no rows)"""
+    if lay is None:
+        return "0 0 0 0"
+    units, hv, hc = lay
+    n = 0 if arr is None else len(arr)
+    toks = [W.lst(W.s, units), W.b(hv), W.b(hc), str(n)]
+    for rec in (arr if arr is not None else []):
         toks.append(W.i(rec["pitch"]))
-        for u in d["units"]:
+        for u in units:
             toks.append(W.q(W.as_fraction(rec["onset_" + u])))
             toks.append(W.q(W.as_fraction(rec["duration_" + u])))
-        toks.append(W.i(rec["velocity"]) if d["has_vel"] else "-")
-        toks.append(W.i(rec["channel"]) if d["has_chan"] else "-")
+        toks.append(W.i(rec["velocity"]) if hv else "-")
+        toks.append(W.i(rec["channel"]) if hc else "-")
     return " ".join(toks)
 
 
@@ -298,13 +579,13 @@ def rhe(x):
     return int(round(x))
 
 
-def select_unit(d, o):
-    """(unit, time_div) the documentation promises, or None when the call must be rejected"""
-    tu = o["tu"]
+def select_unit(lay, e):
+    """(unit, time_div) the documentation promises, None when the call must be rejected, 'skip' = no verdict"""
+    tu = e["tu"]
     if tu not in TIME_UNITS + ["auto"]:
         return None
     if tu == "auto":
-        pres = set(d["units"])
+        pres = set(lay[0])
         unit = None
         for group in (SCORE_UNITS, PERF_UNITS):
             hit = [u for u in group if u in pres]
@@ -315,53 +596,67 @@ def select_unit(d, o):
             return None
     else:
         unit = tu
-        if unit not in d["units"]:
+        if unit not in lay[0]:
             return None
-    td = o["td"]
+    td = e["td"]
     if td == "auto":
         td = 1 if unit in INT_UNITS else 8
+    elif isinstance(td, dict):
+        if "arr" in td:
+            return "skip"
+        td = int(td["a0"])
+    else:
+        td = int(td)  # truncation toward zero
     return unit, td
 
 
-def notes_of(d, arr, o, unit):
+def notes_of(lay, arr, e, unit):
     """[(pitch, onset, duration, velocity)] over Fractions, in input order, drums removed"""
     out = []
     for rec in arr:
-        if d["has_chan"] and o["rd"] and int(rec["channel"]) == 9:
+        if lay[2] and e["rd"] and int(rec["channel"]) == 9:
             continue
         out.append((int(rec["pitch"]), W.as_fraction(rec["onset_" + unit]), W.as_fraction(rec["duration_" + unit]),
-                    int(rec["velocity"]) if d["has_vel"] else 1))
+                    int(rec["velocity"]) if lay[1] else 1))
     return out
 
 
-def floats_exact(notes, o, td, t0):
-    """the binary64 products the code rounds are exactly the rationals the oracle/model round"""
+def floats_exact(notes, e, td, t0, et, last):
+    """the binary64 results the code rounds are exactly the rationals the oracle/model round"""
     t0f = float(t0)
     for (_, on, du, _) in notes:
         if Fraction(float(td) * (float(on) - t0f)) != td * (on - t0):
             return False
         if Fraction(float(td) * float(du)) != td * du:
             return False
-    if o["et"] is not None:
-        e = Fraction(o["et"])
-        ef = float(o["et"]) - t0f
-        if Fraction(ef) != e - t0 or Fraction(ef * td) != (e - t0) * td:
+    tm = Fraction(e["tm"])
+    tmf = float(e["tm"])
+    if Fraction(tmf * td) != tm * td:
+        return False
+    if et is None:
+        if Fraction(td * tmf + float(last)) != td * tm + last:
             return False
-        if Fraction(float(td * o["tm"]) + td * ef) != td * o["tm"] + td * (e - t0):
+    else:
+        x = Fraction(et)
+        ef = float(et) - t0f
+        if Fraction(ef) != x - t0 or Fraction(ef * td) != (x - t0) * td:
+            return False
+        if Fraction(td * tmf + td * ef) != td * tm + td * (x - t0):
             return False
     return True
 
 
-def rasterise(notes, o, td):
-    """the property statement, directly: returns ('err', why) or (rows, cols, {(p,j): v}, idx_rows, t0)"""
+def rasterise(notes, e, td, et):
+    """the property statement, directly: returns ('err', why) or (rows, cols, {(p,j): v}, idx_rows, t0, last)"""
     if not notes:
         return ("err", "empty")
     if any(du < 0 for (_, _, du, _) in notes):
         return ("err", "negative duration")
     first = min(on for (_, on, _, _) in notes)
-    t0 = first if o["rs"] else min(Fraction(0), first)
-    margin = o["tm"] * td
-    pm = o["pm"]
+    t0 = first if e["rs"] else min(Fraction(0), first)
+    tm = Fraction(e["tm"])
+    margin = int(tm * td)  # toward zero
+    pm = e["pm"]
     if pm > -1:
         low = min(p for (p, _, _, _) in notes)
         high = max(p for (p, _, _, _) in notes)
@@ -377,58 +672,79 @@ def rasterise(notes, o, td):
         ln = max(1, rhe(td * du))
         end = a + ln
         last = end if last is None else max(last, end)
-        shown = 1 if o["oo"] else max(1, ln - (1 if o["ns"] else 0))
+        shown = 1 if e["oo"] else max(1, ln - (1 if e["ns"] else 0))
         spans.append((p + shift, a, a + shown, end, v, p))
-    if o["et"] is None:
-        cols = margin + last
+    if et is None:
+        cols = math.ceil(tm * td + last)
     else:
-        e = Fraction(o["et"]) - t0
-        if e * td < last:
+        x = Fraction(et) - t0
+        if x * td < last:
             return ("err", "end_time before the last offset")
-        cols = math.ceil(margin + td * e)
+        cols = math.ceil(tm * td + td * x)
     cells = {}
     for (row, a, b, _, v, _) in spans:
         if not (0 <= row < full_rows):
             return ("err", "pitch outside the roll")
+        if a < 0 or b > cols:
+            return ("err", "frames outside the roll")
         for j in range(a, b):
-            val = 1 if o["bi"] else v
+            val = 1 if e["bi"] else v
             cells[(row, j)] = max(cells.get((row, j), 0), val)
     start = 0
     rows = full_rows
-    if o["pr"]:
+    if e["pr"]:
         start = 21
         rows = max(0, min(109, full_rows) - min(21, full_rows))
         cells = {(p - 21, j): v for (p, j), v in cells.items() if 21 <= p < 109}
     idx = []
     for (row, a, b, end, _, p) in spans:
-        idx.append((row - start, a, end if o["oo"] else b, p))
-    return (rows, cols, cells, idx, t0)
+        idx.append((row - start, a, end if e["oo"] else b, p))
+    return (rows, cols, cells, idx, t0, last)
 
 
-def check_roll(d, arr, o, res, exc):
-    """oracle failures of one compute_pianoroll call"""
+def check_roll(lay, arr, e, res, exc):
+    """oracle failures of one compute_pianoroll call; `lay`/`arr` = layout and rows of the note array
+    (None = the input must be rejected), `e` = the effective option values"""
     fails = []
-    sel = select_unit(d, o)
+    if lay is None:
+        if exc is None:
+            fails.append("error: an input that is no note array / score / performance was accepted")
+        return fails, None
+    if arr is None:
+        fails.append("error: a score-like / performance-like input was rejected by ensure_notearray")
+        return fails, None
+    sel = select_unit(lay, e)
+    if sel == "skip":
+        return fails, "skip"
     if sel is None:
         if exc is None:
-            fails.append("error: unknown/missing time unit %r accepted" % (o["tu"],))
+            fails.append("error: unknown/missing time unit %r accepted" % (e["tu"],))
         return fails, None
     unit, td = sel
-    notes = notes_of(d, arr, o, unit)
-    exp = rasterise(notes, o, td)
+    et = et_scalar(e["et"])
+    if et == "skip":
+        return fails, "skip"
+    notes = notes_of(lay, arr, e, unit)
+    exp = rasterise(notes, e, td, et)
     if exp[0] == "err":
         if exc is None:
             fails.append("error: input must be rejected (%s) but a roll was returned" % exp[1])
         return fails, None
-    rows, cols, cells, idx, t0 = exp
-    if not floats_exact(notes, o, td, t0):
+    rows, cols, cells, idx, t0, last = exp
+    if not floats_exact(notes, e, td, t0, et, last):
         return fails, "inexact"
     if exc is not None:
         fails.append("error: valid input rejected with %r" % (exc,))
         return fails, None
-    if o["ri"]:
+    if e["ri"]:
+        if not (isinstance(res, tuple) and len(res) == 2):
+            fails.append("idx: return_idxs=True did not return (roll, index rows)")
+            return fails, None
         mat, ridx = res
     else:
+        if isinstance(res, tuple):
+            fails.append("idx: index rows returned although return_idxs is False")
+            return fails, None
         mat, ridx = res, None
     a = mat.toarray()
     if a.shape != (rows, cols):
@@ -455,7 +771,7 @@ def check_roll(d, arr, o, res, exc):
             des = set()
             for (row, on, off, _) in r:
                 if 0 <= row < rows:
-                    for j in ([on] if o["oo"] else range(on, off)):
+                    for j in ([on] if e["oo"] else range(on, off)):
                         des.add((row, j))
             if des != set(got):
                 fails.append("idx: index rows do not designate exactly the non-zero cells")
@@ -510,80 +826,113 @@ def call(f, *a, **kw):
         return None, e
 
 
-def kwargs_of(o):
-    return dict(time_unit=o["tu"], time_div=o["td"], onset_only=o["oo"], note_separation=o["ns"],
-                pitch_margin=o["pm"], time_margin=o["tm"], return_idxs=o["ri"], piano_range=o["pr"],
-                remove_drums=o["rd"], remove_silence=o["rs"], end_time=o["et"], binary=o["bi"])
+def snapshot(x):
+    return x.tobytes() if isinstance(x, np.ndarray) else None
 
 
 def eval_pr(d):
     import partitura.utils.music as M
 
     ev = Eval()
-    arr = build_array(d)
-    arr_req = req_array(d, arr)
-    before = arr.tobytes()
+    src = d.get("src", "array")
+    inp = build_input(d)
+    lay = layout_of(d)
+    if src == "array":
+        arr = inp
+    elif lay is not None:
+        arr, _ = call(M.ensure_notearray, inp)
+        if arr is not None:
+            # the layout the documentation promises for this kind of input
+            names = set(arr.dtype.names or ())
+            need = {"pitch"} | {"onset_" + u for u in lay[0]} | {"duration_" + u for u in lay[0]}
+            need |= ({"velocity"} if lay[1] else set()) | ({"channel"} if lay[2] else set())
+            have_units = [n[6:] for n in (arr.dtype.names or ()) if n.startswith("onset_")]
+            if not need <= names or have_units != lay[0] or ("velocity" in names) != lay[1] or ("channel" in names) != lay[2]:
+                ev.oracle.append("dispatch: the note array of a %s has columns %r" % (src, sorted(names)))
+                arr = None
+    else:
+        arr = None
+    arr_req = req_array(lay, arr)
+    before = snapshot(inp)
     nontrivial = False
     skipped = 0
+    large = 0
     for o in d["opts"]:
-        res, exc = call(M.compute_pianoroll, arr, **kwargs_of(o))
-        fails, info = check_roll(d, arr, o, res, exc)
+        e = effective(o)
+        res, exc = call(M.compute_pianoroll, inp, **kwargs_of(o))
+        fails, info = check_roll(lay, arr, e, res, exc)
         if info == "inexact":
             skipped += 1
             continue
-        ev.oracle += ["%s [opts %s]" % (f, {k: v for k, v in o.items() if k != "pc"}) for f in fails]
-        ev.requests.append("pr " + req_args(o) + " " + arr_req)
+        ev.oracle += ["%s [%s opts %s]" % (f, src, {k: v for k, v in o.items() if k != "pc"}) for f in fails]
+        if exc is None and not fails:
+            m0 = res[0] if isinstance(res, tuple) else res
+            if getattr(m0, "nnz", 0) > MAX_CELLS or (getattr(m0, "shape", (0, 0))[1] > MAX_COLS and "pc" in o):
+                large += 1  # the model's cell-by-cell answer is quadratic in the number of cells
+                continue
+        ev.requests.append("pr %s %s %s" % (W.s(src), req_args(o), arr_req))
         if exc is not None:
             ev.impl.append("err")
         else:
             nontrivial = True
-            ev.impl.append(fmt_roll(res[0], res[1]) if o["ri"] else fmt_roll(res, None))
+            try:
+                ev.impl.append(fmt_roll(res[0], res[1]) if isinstance(res, tuple) else fmt_roll(res, None))
+            except Exception as x:
+                ev.impl.append("unreadable result %r" % (x,))
         if "pc" in o:
-            pc = o["pc"]
-            kw = dict(normalize=pc["norm"], time_unit=o["tu"], time_div=o["td"], onset_only=o["oo"],
-                      note_separation=o["ns"], time_margin=o["tm"], return_idxs=o["ri"],
-                      remove_silence=o["rs"], end_time=o["et"], binary=pc["bin"])
-            r2, e2 = call(M.compute_pitch_class_pianoroll, arr, **kw)
-            ev.requests.append("pc %s %s %s %s" % (W.b(pc["norm"]), W.b(pc["bin"]), req_args(o), arr_req))
-            # the full roll it must be the fold of (computed by the implementation itself, checked above for its own options)
-            ofull = dict(o, pm=-1, pr=False, rd=True, bi=False, ri=True)
-            full, e3 = call(M.compute_pianoroll, arr, **kwargs_of(ofull))
+            pe = pc_effective(o)
+            r2, e2 = call(M.compute_pitch_class_pianoroll, inp, **pc_kwargs_of(o))
+            ev.requests.append("pc %s %s %s" % (W.s(src), req_pc_args(o), arr_req))
+            # the full roll it must be the fold of (computed by the implementation itself, checked for its own options
+            # by the clauses above whenever such an option set is drawn)
+            ofull = {"tu": pe["tu"], "td": pe["td"], "oo": pe["oo"], "ns": pe["ns"], "pm": -1, "tm": pe["tm"], "ri": True,
+                     "pr": False, "rd": True, "rs": pe["rs"], "et": pe["et"], "bi": False}
+            full, e3 = call(M.compute_pianoroll, inp, **kwargs_of(ofull))
             if e2 is not None:
                 ev.impl.append("err")
                 if e3 is None:
-                    ev.oracle.append("pc: pitch-class roll rejected (%r) an input whose full roll exists [opts %s]" % (e2, o))
+                    ev.oracle.append("pc: pitch-class roll rejected (%r) an input whose full roll exists [%s opts %s]" % (e2, src, o))
             else:
-                pcm, pidx = (r2 if o["ri"] else (r2, None))
+                nontrivial = True
+                if pe["ri"] and not (isinstance(r2, tuple) and len(r2) == 2):
+                    ev.oracle.append("pc: return_idxs=True did not return (roll, index rows) [%s opts %s]" % (src, o))
+                    ev.impl.append("unreadable")
+                    continue
+                if not pe["ri"] and isinstance(r2, tuple):
+                    ev.oracle.append("pc: index rows returned although return_idxs is False [%s opts %s]" % (src, o))
+                    ev.impl.append("unreadable")
+                    continue
+                pcm, pidx = (r2 if pe["ri"] else (r2, None))
                 vals = [int(pcm.shape[1]), [[float(x) for x in pcm[:, j]] for j in range(pcm.shape[1])],
                         [[int(x) for x in row] for row in pidx] if pidx is not None else []]
                 ev.impl.append(("@approx", vals, 1e-9))
                 if e3 is not None:
-                    ev.oracle.append("pc: pitch-class roll returned although the full roll is rejected (%r) [opts %s]" % (e3, o))
+                    ev.oracle.append("pc: pitch-class roll returned although the full roll is rejected (%r) [%s opts %s]" % (e3, src, o))
                 else:
                     fa = full[0].toarray()
-                    exp = pc_expected(fa, pc["bin"], pc["norm"])
+                    exp = pc_expected(fa, pe["bin"], pe["norm"])
                     if pcm.shape != (12, fa.shape[1]):
-                        ev.oracle.append("pc: shape %r for a full roll of %d frames [opts %s]" % (pcm.shape, fa.shape[1], o))
+                        ev.oracle.append("pc: shape %r for a full roll of %d frames [%s opts %s]" % (pcm.shape, fa.shape[1], src, o))
                     else:
                         bad = [(c, j) for j in range(fa.shape[1]) for c in range(12)
                                if abs(Fraction(float(pcm[c, j])) - exp[j][c]) > Fraction(1, 10**9)]
                         if bad:
                             c, j = bad[0]
-                            ev.oracle.append("pc: cell %r is %r, the octave fold%s gives %s [opts %s]" % (
-                                (c, j), float(pcm[c, j]), " (normalised)" if pc["norm"] else "", exp[j][c], o))
-                        if pc["norm"]:
+                            ev.oracle.append("pc: cell %r is %r, the octave fold%s gives %s [%s opts %s]" % (
+                                (c, j), float(pcm[c, j]), " (normalised)" if pe["norm"] else "", exp[j][c], src, o))
+                        if pe["norm"]:
                             for j in range(fa.shape[1]):
                                 s = float(pcm[:, j].sum())
                                 if not (abs(s - 1) < 1e-9 or not pcm[:, j].any()):
-                                    ev.oracle.append("pc: normalised frame %d sums to %r [opts %s]" % (j, s, o))
+                                    ev.oracle.append("pc: normalised frame %d sums to %r [%s opts %s]" % (j, s, src, o))
                                     break
                         if pidx is not None:
                             want = [(int(r[0]) % 12, int(r[1]), int(r[2]), int(r[3])) for r in full[1]]
                             if [tuple(int(x) for x in r) for r in pidx] != want:
-                                ev.oracle.append("pc: index rows are not the full roll's rows with the pitch taken mod 12 [opts %s]" % (o,))
-    if arr.tobytes() != before:
+                                ev.oracle.append("pc: index rows are not the full roll's rows with the pitch taken mod 12 [%s opts %s]" % (src, o))
+    if before is not None and snapshot(inp) != before:
         ev.oracle.append("frame: compute_pianoroll modified its argument")
-    ev.info = {"skipped_inexact": skipped}
+    ev.info = {"skipped_inexact": skipped, "skipped_large": large}
     ev.key = ("|".join(ev.requests)) if nontrivial else None
     return ev
 
@@ -595,8 +944,28 @@ def dense_of(d):
     return a
 
 
-def fmt_notes_approx(na, unit):
-    return [[int(r["pitch"]), float(r["onset_" + unit]), float(r["duration_" + unit]), int(r["velocity"])] for r in na]
+def stored(x):
+    """canonical text of a float32 value: the exact rational, or inf"""
+    x = float(x)
+    if x != x:
+        return "nan"
+    if x in (float("inf"), float("-inf")):
+        return "inf"
+    return W.f_rat(Fraction(x))
+
+
+def fmt_notes_exact(na, unit):
+    return "[" + ",".join("[%d,%s,%s,%d]" % (int(r["pitch"]), stored(r["onset_" + unit]), stored(r["duration_" + unit]), int(r["velocity"]))
+                          for r in na) + "]"
+
+
+def dec_call(M, inp, td, unit):
+    kw = {}
+    if td is not None:
+        kw["time_div"] = td
+    if unit is not None:
+        kw["time_unit"] = unit
+    return call(M.pianoroll_to_notearray, inp, **kw)
 
 
 def eval_dec(d):
@@ -607,37 +976,47 @@ def eval_dec(d):
     a = dense_of(d)
     inp = csc_matrix(a) if d["sparse"] else a
     before = a.copy()
-    res, exc = call(M.pianoroll_to_notearray, inp, d["td"], d["unit"])
-    ev.requests.append("dec %d %d %d %s" % (d["rows"], d["n"], d["td"],
+    td, unit = d["td"], d.get("unit", "sec")
+    res, exc = dec_call(M, inp, td, unit)
+    unit_eff = "sec" if unit is None else unit
+    td_eff = 8 if td is None else td
+    ev.requests.append("dec %d %d %s %s" % (d["rows"], d["n"], W.opt(W.q, td),
                                            W.lst(lambda c: "%d %d %d" % tuple(c), d["cells"])))
     good_shape = d["rows"] in (128, 88)
+    runs = run_decoder_oracle(a)
     if exc is not None:
         ev.impl.append("err")
-        if good_shape:
+        if good_shape and not (td_eff == 0 and runs):
             ev.oracle.append("dec: a %dx%d integer roll was rejected: %r" % (d["rows"], d["n"], exc))
         return ev
-    ev.impl.append(("@approx", fmt_notes_approx(res, d["unit"]), 1e-6))
+    if ("onset_" + unit_eff) not in (res.dtype.names or ()) or ("duration_" + unit_eff) not in (res.dtype.names or ()):
+        ev.impl.append("unreadable")
+        ev.oracle.append("dec: the result has no onset_%s / duration_%s columns (%r)" % (unit_eff, unit_eff, res.dtype.names))
+        return ev
+    ev.impl.append(fmt_notes_exact(res, unit_eff))
     if not good_shape:
         ev.oracle.append("dec: a roll with %d rows was accepted" % d["rows"])
         return ev
+    ev.key = ev.requests[0]
+    if td_eff == 0:
+        return ev
     init = 21 if d["rows"] == 88 else 0
-    runs = run_decoder_oracle(a)
-    td = d["td"]
-    want = [(p + init, Fraction(on, td), Fraction(off - on, td), v) for (on, p, off, v) in runs]
-    got = [(int(r["pitch"]), W.as_fraction(r["onset_" + d["unit"]]), W.as_fraction(r["duration_" + d["unit"]]), int(r["velocity"]))
+    # binary64 division, stored as binary32 (numpy's conversions are the reference for the two roundings)
+    want = [(p + init, Fraction(float(np.float32(float(on) / td_eff))), Fraction(float(np.float32(float(off - on) / td_eff))), v)
+            for (on, p, off, v) in runs]
+    got = [(int(r["pitch"]), W.as_fraction(r["onset_" + unit_eff]), W.as_fraction(r["duration_" + unit_eff]), int(r["velocity"]))
            for r in res]
     if len(got) != len(want):
         ev.oracle.append("dec: %d notes decoded, the roll has %d runs" % (len(got), len(want)))
     else:
         for g, w in zip(got, want):
-            if g[0] != w[0] or g[3] != w[3] or abs(g[1] - w[1]) > Fraction(1, 10**5) * max(1, abs(w[1])) or abs(g[2] - w[2]) > Fraction(1, 10**5) * max(1, abs(w[2])):
+            if g != w:
                 ev.oracle.append("dec: decoded note %r is not the run %r" % (tuple(map(float, g)), tuple(map(float, w))))
                 break
         if [str(x) for x in res["id"]] != ["n%d" % i for i in range(len(res))]:
             ev.oracle.append("dec: note ids are not n0..n%d" % (len(res) - 1))
     if (a != before).any():
         ev.oracle.append("frame: pianoroll_to_notearray modified its argument")
-    ev.key = ev.requests[0]
     return ev
 
 
@@ -653,27 +1032,28 @@ def eval_rt(d):
     recs = [(p, f32(Fraction(on, td)), f32(Fraction(ln, td)), v) for (p, on, ln, v) in notes]
     arr = np.array(recs, dtype=[("pitch", "i4"), ("onset_" + unit, "f4"), ("duration_" + unit, "f4"), ("velocity", "i4")])
     # float32 storage of k/12 is not on the grid exactly; the frames still are (checked via the correspondence of the roll)
-    dd = {"units": [unit], "has_vel": True, "has_chan": False}
+    lay = ([unit], True, False)
     o = {"tu": unit, "td": td, "oo": False, "ns": False, "pm": -1, "tm": 0, "pr": d["piano"], "rd": True,
          "rs": False, "et": None, "bi": False, "ri": False}
     in_range = all((21 <= p < 109) if d["piano"] else (0 <= p < 128) for (p, _, _, _) in notes)
     pr, exc = call(M.compute_pianoroll, arr, **kwargs_of(o))
-    ev.requests.append("pr " + req_args(o) + " " + req_array(dd, arr))
+    ev.requests.append("pr array " + req_args(o) + " " + req_array(lay, arr))
     if exc is not None:
         ev.impl.append("err")
-        ev.oracle.append("roundtrip: encoding rejected %r" % (exc,))
+        if in_range:
+            ev.oracle.append("roundtrip: encoding rejected %r" % (exc,))
         return ev
     ev.impl.append(fmt_roll(pr, None))
     back, exc2 = call(M.pianoroll_to_notearray, pr, td, unit)
     a = pr.toarray()
     ps, js = a.nonzero()
     cells = [[int(p), int(j), int(a[p, j])] for p, j in zip(ps.tolist(), js.tolist())]
-    ev.requests.append("dec %d %d %d %s" % (a.shape[0], a.shape[1], td, W.lst(lambda c: "%d %d %d" % tuple(c), cells)))
+    ev.requests.append("dec %d %d %s %s" % (a.shape[0], a.shape[1], W.q(td), W.lst(lambda c: "%d %d %d" % tuple(c), cells)))
     if exc2 is not None:
         ev.impl.append("err")
         ev.oracle.append("roundtrip: decoding rejected %r" % (exc2,))
         return ev
-    ev.impl.append(("@approx", fmt_notes_approx(back, unit), 1e-6))
+    ev.impl.append(fmt_notes_exact(back, unit))
     if in_range:
         tol = Fraction(1, 10**5)
         got = sorted((int(r["pitch"]), rhe(W.as_fraction(r["onset_" + unit]) * td), rhe(W.as_fraction(r["duration_" + unit]) * td),
@@ -708,10 +1088,28 @@ def shrink(d):
         for o in d["opts"][:1]:
             if "pc" in o and len(d["opts"]) == 1:
                 yield dict(d, opts=[{kk: v for kk, v in o.items() if kk != "pc"}])
-        for i in range(len(d["rows"])):
-            yield dict(d, rows=d["rows"][:i] + d["rows"][i + 1:])
+        if d.get("src", "array") == "array":
+            for i in range(len(d["rows"])):
+                yield dict(d, rows=d["rows"][:i] + d["rows"][i + 1:])
+        elif d.get("pnotes"):
+            for i in range(len(d["pnotes"])):
+                yield dict(d, pnotes=d["pnotes"][:i] + d["pnotes"][i + 1:])
+        elif d.get("parts"):
+            if len(d["parts"]) > 1 and d["src"] != "part":
+                for i in range(len(d["parts"])):
+                    yield dict(d, parts=d["parts"][:i] + d["parts"][i + 1:])
+            for pi, p in enumerate(d["parts"]):
+                for i in range(len(p["notes"])):
+                    if any(n.get("tie") == p["notes"][i]["id"] for n in p["notes"]):
+                        continue
+                    q = dict(p, notes=p["notes"][:i] + p["notes"][i + 1:])
+                    yield dict(d, parts=d["parts"][:pi] + [q] + d["parts"][pi + 1:])
         if len(d["opts"]) == 1:
             o = d["opts"][0]
+            if o.get("omit"):
+                yield dict(d, opts=[{kk: v for kk, v in o.items() if kk != "omit"}])
+            if "pc" in o and o["pc"].get("omit"):
+                yield dict(d, opts=[dict(o, pc={kk: v for kk, v in o["pc"].items() if kk != "omit"})])
             for kk, v in (("oo", False), ("ns", False), ("pm", -1), ("tm", 0), ("pr", False), ("rs", False),
                           ("et", None), ("bi", False), ("ri", False), ("rd", True)):
                 if o[kk] != v:
@@ -732,25 +1130,39 @@ def distribution(descs, results):
     c = Counter(d.get("k", "pr") for d in descs)
     opt = Counter()
     units = Counter()
+    srcs = Counter()
     n_opts = 0
     for d in descs:
         if d.get("k", "pr") != "pr":
+            if d.get("k") == "dec":
+                opt["dec:td=%s" % ("omitted" if d["td"] is None else "0" if d["td"] == 0 else "int" if isinstance(d["td"], int) else "float")] += 1
+                if any(c_[2] < 0 for c_ in d["cells"]):
+                    opt["dec:negative"] += 1
+                if d["n"] <= 1:
+                    opt["dec:n<=1"] += 1
             continue
-        units["+".join(sorted(d["units"])) or "none"] += 1
+        srcs[d.get("src", "array")] += 1
+        if d.get("src", "array") == "array":
+            units["+".join(sorted(d["units"])) or "none"] += 1
         for o in d["opts"]:
             n_opts += 1
             for kk in ("oo", "ns", "pr", "rs", "bi", "ri"):
                 if o[kk]:
                     opt[kk] += 1
             opt["pm=%d" % o["pm"]] += 1
-            opt["td=%s" % o["td"]] += 1
+            opt["td=%s" % (o["td"] if not isinstance(o["td"], dict) else "array")] += 1
+            opt["tm=%s" % o["tm"]] += 1
             opt["tu=%s" % o["tu"]] += 1
             if o["et"] is not None:
-                opt["end_time"] += 1
+                opt["end_time" + (":seq" if isinstance(o["et"], dict) else "")] += 1
+            if o.get("omit"):
+                opt["some keywords omitted"] += 1
             if "pc" in o:
                 opt["pc"] += 1
     errs = sum(1 for r in results for x in r.get("impl", []) if x == "err")
     skipped = sum((r.get("info") or {}).get("skipped_inexact", 0) for r in results)
-    sizes = Counter(min(len(d["rows"]), 12) for d in descs if d.get("k", "pr") == "pr")
-    return {"by_kind": dict(c), "option_sets": n_opts, "options": dict(opt), "unit_sets": dict(units),
-            "array_sizes(capped 12)": dict(sizes), "error_observations": errs, "skipped_inexact_float": skipped}
+    large = sum((r.get("info") or {}).get("skipped_large", 0) for r in results)
+    sizes = Counter(min(len(d["rows"]), 12) for d in descs if d.get("k", "pr") == "pr" and d.get("src", "array") == "array")
+    return {"by_kind": dict(c), "inputs": dict(srcs), "option_sets": n_opts, "options": dict(opt), "unit_sets": dict(units),
+            "array_sizes(capped 12)": dict(sizes), "error_observations": errs, "skipped_inexact_float": skipped,
+            "oracle_only_large_rolls": large}
